@@ -388,7 +388,48 @@ def rule_R(toks, au, opts=None):
         i += 1
     toks = out
     toks = rule_letchain(toks, au)
+    toks = rule_drain(toks, au)
     toks = rule_for(toks, au, opts.get("for", "auto"))
+    return toks
+
+
+def rule_drain(toks, au):
+    """for PAT in M.drain() { B }  ->  loop { match vx_take_any(&mut M) { Some(PAT) => { B } None => { break; } } }
+    (HashMap::drain yields every entry exactly once in unspecified order and leaves the map empty;
+    vx_take_any removes one unspecified entry)"""
+    i = 0
+    while i < len(toks):
+        if is_id(toks[i], "for") and _stmt_pos(toks[:i]):
+            j = _body_open(toks, i)
+            hdr = toks[i + 1:j]
+            k = 0
+            depth = 0
+            while k < len(hdr) and not (is_id(hdr[k], "in") and depth == 0):
+                if hdr[k].kind == "p" and hdr[k].text in OPEN:
+                    depth += 1
+                elif hdr[k].kind == "p" and hdr[k].text in CLOSE:
+                    depth -= 1
+                k += 1
+            if k < len(hdr):
+                pat, it = hdr[:k], hdr[k + 1:]
+                if len(it) >= 5 and [x.text for x in it[-4:]] == [".", "drain", "(", ")"]:
+                    close = match_close(toks, j)
+                    if _contains_kw_at_loop_level(toks[j:close + 1], ("continue", "break")):
+                        raise Undecided("drain loop with continue/break is outside the rewrite table")
+                    recv = it[:-4]
+                    au.note("R", "for P in M.drain() -> loop { match vx_take_any(&mut M) }")
+                    ws = toks[i].ws
+                    head = [Tok("id", "loop", ws), Tok("p", "{", " "), Tok("id", "match", " "), Tok("id", "vx_take_any", " "), Tok("p", "(", ""),
+                            Tok("p", "&", ""), Tok("id", "mut", "")] + [_w(x, " " if q == 0 else x.ws) for q, x in enumerate(recv)] + \
+                           [Tok("p", ")", ""), Tok("p", "{", " "), Tok("id", "Some", " "), Tok("p", "(", "")] + \
+                           [_w(x, "" if q == 0 else x.ws) for q, x in enumerate(pat)] + [Tok("p", ")", ""), Tok("p", "=", " "), Tok("p", ">", "")]
+                    tail = [Tok("id", "None", " "), Tok("p", "=", " "), Tok("p", ">", ""), Tok("p", "{", " "), Tok("id", "break", " "), Tok("p", ";", ""),
+                            Tok("p", "}", " "), Tok("p", "}", " "), Tok("p", "}", " ")]
+                    body = [_w(toks[j], " ")] + toks[j + 1:close + 1]
+                    toks[i:close + 1] = head + body + tail
+                    i += len(head)
+                    continue
+        i += 1
     return toks
 
 
@@ -552,7 +593,7 @@ def _space(ts):
 # ------------------------------------------------------------------ rule H / L
 class Hoist:
     def __init__(self, fields=(), thread=(), fx=(), fxarg="&mut st.fx", st="st", stparam="st: &mut SessionState",
-                 locks=None, elide=None):
+                 locks=None, elide=None, aliases=None, nolock=()):
         self.fields = set(fields)     # hoisted field names: self.F -> st.F
         self.thread = set(thread)     # self.m(..) -> self.m(.., st)
         self.fx = set(fx)             # x.m(..) -> x.m(.., &mut st.fx) for foreign effectful methods
@@ -561,6 +602,11 @@ class Hoist:
         self.stparam = stparam
         self.locks = locks or {}      # field -> kind ("mutex" | "rwlock")
         self.elide = elide or {}      # lock elision of a foreign guard:  "reader_mutex" -> "rd"
+        self.aliases = aliases or {}  # foreign lock path "heartbeat_state.last_received" -> hoisted field name
+        self.nolock = set(nolock)     # hoisted fields that are atomics (no guard, no lock flag)
+        self.acq = {}                 # filled by the assembler: method -> {field: mode}
+        self.direct = {}              # collected: fn -> {field: mode}
+        self.calls = {}               # collected: fn -> set(methods called on self)
 
 
 LOCK_METHODS = ("lock", "read", "write")
@@ -580,9 +626,11 @@ def _block_end(toks, k):
         k += 1
 
 
-def rule_H(toks, au, h, lockflags=False):
+def rule_H(toks, au, h, lockflags=False, fname=None):
     st = h.st
     # 1. guard elimination:  let [mut] G = self.F.(lock|read|write)() [.unwrap()];   (after rule A)
+    #    also  let [mut] G = <alias path>.lock();  for foreign lock paths declared in the hoist table
+    held = []
     i = 0
     while i < len(toks):
         if is_id(toks[i], "let"):
@@ -590,26 +638,55 @@ def rule_H(toks, au, h, lockflags=False):
             if is_id(toks[j], "mut"):
                 j += 1
             g = toks[j]
-            if g.kind == "id" and texts(toks, j + 1, 3) == ["=", "self", "."] and toks[j + 4].text in h.fields \
-                    and is_p(toks[j + 5], ".") and toks[j + 6].text in LOCK_METHODS and texts(toks, j + 7, 2) == ["(", ")"]:
-                e = j + 9
-                if texts(toks, e, 4) == [".", "unwrap", "(", ")"]:
-                    e += 4
-                if is_p(toks[e], ";"):
-                    F, G, how = toks[j + 4].text, g.text, toks[j + 6].text
+            hit = None
+            if g.kind == "id" and is_p(toks[j + 1], "="):
+                # collect receiver path tokens up to .lock()/.read()/.write()
+                k = j + 2
+                path = []
+                while k < len(toks) and (toks[k].kind == "id" or is_p(toks[k], ".")):
+                    path.append(toks[k].text)
+                    k += 1
+                # path like ['self','.','F','.','lock'] then '(' ')'
+                if len(path) >= 5 and path[-1] in LOCK_METHODS and path[-2] == "." and texts(toks, k, 2) == ["(", ")"]:
+                    recv = "".join(path[:-2])
+                    how = path[-1]
+                    F = None
+                    if path[0] == "self" and len(path) == 5 and path[2] in h.fields:
+                        F = path[2]
+                    elif recv in h.aliases:
+                        F = h.aliases[recv]
+                    if F is not None:
+                        e = k + 2
+                        if texts(toks, e, 4) == [".", "unwrap", "(", ")"]:
+                            e += 4
+                        if is_p(toks[e], ";"):
+                            hit = (F, g.text, how, e)
+            if hit:
+                    F, G, how, e = hit
                     scope_end = _block_end(toks, e + 1)
-                    au.note("H", f"guard `{G}` = self.{F}.{how}() eliminated")
+                    au.note("H", f"guard `{G}` = {recv}.{how}() eliminated")
+                    mode = 1 if how == "read" else 2
+                    if fname is not None:
+                        h.direct.setdefault(fname, {})
+                        h.direct[fname][F] = max(h.direct[fname].get(F, 0), mode)
                     new = []
+                    # the flag matters only if a state-threading call happens while the guard is alive
+                    flag = False
                     if lockflags:
-                        new += _ghost(f"proof {{ vx_held_{F} = true; }}", toks[i].ws)
+                        for q in range(e + 1, scope_end - 2):
+                            if is_id(toks[q], "self") and is_p(toks[q + 1], ".") and toks[q + 2].text in h.thread and is_p(toks[q + 3], "("):
+                                flag = True
+                    if flag:
+                        new += _ghost(f"proof {{ vx_held_{F} = {mode}int; }}", toks[i].ws)
+                        if F not in held:
+                            held.append(F)
                     m = e + 1
-                    released = False
                     while m < scope_end:
                         tt = toks[m]
                         if is_id(tt, "drop") and texts(toks, m + 1, 4) == ["(", G, ")", ";"] and not (new and is_p(new[-1], ".")):
                             au.note("H", f"drop({G}) removed")
-                            if lockflags:
-                                new += _ghost(f"proof {{ vx_held_{F} = false; }}", tt.ws)
+                            if flag:
+                                new += _ghost(f"proof {{ vx_held_{F} = 0int; }}", tt.ws)
                             m += 5
                             continue
                         if tt.kind == "id" and tt.text == G and not (new and is_p(new[-1], ".")) \
@@ -624,8 +701,10 @@ def rule_H(toks, au, h, lockflags=False):
                             continue
                         new.append(tt)
                         m += 1
-                    if lockflags:
-                        new += _ghost(f"proof {{ vx_held_{F} = false; }}", " ")
+                    if flag:
+                        if not (new and new[-1].kind == "p" and new[-1].text in (";", "}")):
+                            raise Undecided("rule L: guarded block ends in a trailing expression")
+                        new += _ghost(f"proof {{ vx_held_{F} = 0int; }}", " ")
                     toks[i:scope_end] = new
                     continue
         i += 1
@@ -639,6 +718,10 @@ def rule_H(toks, au, h, lockflags=False):
                 e += 4
             F = toks[i + 2].text
             au.note("H", f"temporary guard self.{F}.{toks[i+4].text}() eliminated")
+            if fname is not None:
+                mode = 1 if toks[i + 4].text == "read" else 2
+                h.direct.setdefault(fname, {})
+                h.direct[fname][F] = max(h.direct[fname].get(F, 0), mode)
             ws = toks[i].ws
             star = i > 0 and is_p(toks[i - 1], "*")
             rep = [Tok("id", st, ws), Tok("p", ".", ""), Tok("id", F, "")]
@@ -662,8 +745,9 @@ def rule_H(toks, au, h, lockflags=False):
         out.append(t)
         i += 1
     toks = out
-    # 3. thread st through self.m(...) / Self::m(...) for m in thread; append fx for fx methods
+    # 3. thread st through self.m(...) for m in thread; append fx for fx methods; rule L asserts
     i = 0
+    lcount = 0
     while i < len(toks):
         t = toks[i]
         if is_p(t, ".") and toks[i + 1].kind == "id" and is_p(toks[i + 2], "("):
@@ -672,6 +756,8 @@ def rule_H(toks, au, h, lockflags=False):
             extra = None
             if recv_self and name in h.thread:
                 extra = st
+                if fname is not None:
+                    h.calls.setdefault(fname, set()).add(name)
             elif name in h.fx and not recv_self:
                 extra = h.fxarg
             if extra:
@@ -683,10 +769,61 @@ def rule_H(toks, au, h, lockflags=False):
                         x.ws = " "
                 toks[k:k] = ins
                 au.note("H", f".{name}(…, {extra})")
-                i = k + len(ins)
+                adv = k + len(ins)
+                if lockflags and recv_self and name in h.acq and held:
+                    asserts = []
+                    for F, mode in sorted(h.acq[name].items()):
+                        if F not in held:
+                            continue
+                        lcount += 1
+                        cond = f"vx_held_{F} == 0" if mode == 2 else f"vx_held_{F} != 2"
+                        asserts.append(f"assert({cond}); //# L_{F}_{name}_{lcount}")
+                    if asserts:
+                        sp = _stmt_start(toks, i - 1)
+                        ws = toks[sp].ws
+                        blk = Tok("spec", ws + "proof {\n" + "\n".join("            " + a for a in asserts) + "\n        }", "")
+                        toks.insert(sp, blk)
+                        au.note("L", f"no-reacquire obligation before self.{name}()")
+                        adv += 1
+                i = adv
                 continue
         i += 1
+    if lockflags and held:
+        # declare the ghost flags at the start of the fn body
+        bo = 0
+        depth = 0
+        while not (is_p(toks[bo], "{") and depth == 0):
+            if toks[bo].kind == "p" and toks[bo].text in "([":
+                depth += 1
+            elif toks[bo].kind == "p" and toks[bo].text in ")]":
+                depth -= 1
+            bo += 1
+        decl = "".join(f"\n        let ghost mut vx_held_{F}: int = 0int;" for F in held)
+        toks.insert(bo + 1, Tok("spec", decl, ""))
+        au.note("L", "ghost lock flags: " + ",".join(held))
     return toks
+
+
+def _stmt_start(toks, k):
+    """index of the first token of the statement containing position k"""
+    depth = 0
+    while k > 0:
+        t = toks[k - 1]
+        if t.kind == "spec":
+            return k
+        if t.kind == "p":
+            if t.text in (")", "]"):
+                depth += 1
+            elif t.text in ("(", "["):
+                if depth == 0:
+                    raise Undecided("rule L: call in expression position that cannot take a preceding proof block")
+                depth -= 1
+            elif depth == 0 and t.text in (";", "{", "}"):
+                return k
+            elif depth == 0 and t.text == ">" and k >= 2 and is_p(toks[k - 2], "=") and t.ws == "":
+                raise Undecided("rule L: call directly in a match arm expression")
+        k -= 1
+    return 0
 
 
 def _ghost(text, ws):
